@@ -795,6 +795,54 @@ func ruleReaderConstruction(c *core.Ctx) {
 			}
 		}
 	}
+	// the entry built by a small constructor that is handed the member type and asks it for
+	// its reader: t[0] = newMemberReader("key", m.key)
+	for _, b := range mr.Blocks {
+		for _, in := range b.Instrs {
+			st, ok := in.(*ssa.Store)
+			if !ok {
+				continue
+			}
+			ia, ok := st.Addr.(*ssa.IndexAddr)
+			if !ok {
+				continue
+			}
+			k, ok := core.ConstInt(ia.Index)
+			if !ok {
+				continue
+			}
+			cl, ok := core.Canon(st.Val).(*ssa.Call)
+			if !ok {
+				continue
+			}
+			h := cl.Call.StaticCallee()
+			if h == nil || !isPrivateHelper(c, h) {
+				continue
+			}
+			for j, a := range cl.Call.Args {
+				which := ""
+				switch {
+				case isFieldOf(a, keyF):
+					which = "key"
+				case isFieldOf(a, valF):
+					which = "value"
+				default:
+					continue
+				}
+				// the helper asks that parameter for its Reader
+				asks := false
+				for _, hc := range core.Calls(h) {
+					hcc := hc.Common()
+					if hcc.IsInvoke() && hcc.Method.Name() == "Reader" && j < len(h.Params) && core.Canon(hcc.Value) == ssa.Value(h.Params[j]) {
+						asks = true
+					}
+				}
+				if asks {
+					idx[which] = k
+				}
+			}
+		}
+	}
 	ki, kok := idx["key"]
 	vi, vok := idx["value"]
 	c.Check(kok && vok && ki == 0 && vi == 1, rule, "meta/signature.MapType.Reader", mr.Pos(), "map entries are read key first, value second",
